@@ -5,6 +5,8 @@ import (
 	"fmt"
 	"reflect"
 	"strconv"
+	"sync"
+	"time"
 
 	"go.brendoncarroll.net/p2p"
 	"go.brendoncarroll.net/p2p/f/x509"
@@ -20,6 +22,8 @@ import (
 	"go.brendoncarroll.net/p2p/s/udpswarm"
 	"go.brendoncarroll.net/p2p/s/wlswarm"
 	"golang.org/x/crypto/ssh"
+
+	"verifharness/internal/rng"
 )
 
 // Msg is a type-erased message.
@@ -396,6 +400,38 @@ func buildP2PKEMem(o stackOpts) *Stack {
 		sw[i], secs[i] = s, s
 	}
 	st := mkStack("p2pke(mem)", sw)
+	addSecure(st, secs)
+	return st
+}
+
+// buildP2PKEWire: p2pkeswarm nodes over the harness transport, which forwards every datagram and replays a good share of them
+// (a second and sometimes a third copy, a little later, out of order with what follows).
+func buildP2PKEWire(o stackOpts, g *rng.R) *Stack {
+	o = o.withDefaults()
+	net := newWireNet(1500)
+	var gmu sync.Mutex
+	net.route = func(m *wireMsg) bool {
+		gmu.Lock()
+		x, d1, d2 := g.Intn(10), g.Intn(400), g.Intn(3000)
+		gmu.Unlock()
+		if x < 4 {
+			b := append([]byte{}, m.Bytes...)
+			src, dst := m.Src, m.Dst
+			time.AfterFunc(time.Duration(d1)*time.Microsecond, func() { net.inject(src, dst, b) })
+			if x == 0 {
+				time.AfterFunc(time.Duration(d2)*time.Microsecond, func() { net.inject(src, dst, b) })
+			}
+		}
+		return true
+	}
+	type A = p2pkeswarm.Addr[wireAddr]
+	sw := make([]p2p.Swarm[A], o.n)
+	secs := make([]p2p.Secure[A, x509.PublicKey], o.n)
+	for i := range sw {
+		s := p2pkeswarm.New[wireAddr](net.node(i), keyN(100+i).Priv)
+		sw[i], secs[i] = s, s
+	}
+	st := mkStack("p2pke(replaying-wire)", sw)
 	addSecure(st, secs)
 	return st
 }
